@@ -4,12 +4,12 @@ use crate::calls::{self, Args};
 use serde_json::{json, Value};
 use std::io::{BufWriter, Write};
 
-fn code(o: &calls::Out, name: &str, ct: u8, len: u32, extra: usize) -> String {
+fn code(o: &calls::Out, name: &str, ct: u8, ver: u16, len: u32, extra: usize) -> String {
     let r = &o.res;
     match r["k"].as_str().unwrap_or("") {
         "ok" => {
             let v = &r["v"];
-            let hdr_ok = v["hdr"]["ct"].as_u64() == Some(ct as u64) && v["hdr"]["ver"].as_u64() == Some(771) && v["hdr"]["len"].as_u64() == Some(len as u64);
+            let hdr_ok = v["hdr"]["ct"].as_u64() == Some(ct as u64) && v["hdr"]["ver"].as_u64() == Some(ver as u64) && v["hdr"]["len"].as_u64() == Some(len as u64);
             let rng = |x: &Value| x["l"].as_u64() == Some(len as u64) && (len == 0 || x["o"].as_i64() == Some(5));
             let body_ok = match name { "parse_tls_raw_record" => rng(&v["data"]), "parse_tls_encrypted" => rng(&v["blob"]), _ => true };
             if r["p"].as_u64() == Some(5 + len as u64) && hdr_ok && body_ok && o.rem_ok { "ok".into() } else { "ok!".into() }
@@ -28,19 +28,25 @@ pub fn cmd_headers(args: &[String]) -> i32 {
     let types: Vec<u8> = if all { (0..=255u8).collect() } else { vec![20, 21, 22, 23, 24, 0, 25, 255] };
     let a = Args::default();
     let mut calls_n = 0u64;
-    for ct in types {
+    // (content type, version, bytes after the header): every content type under TLS 1.2, then a grid of content types x
+    // versions (old, new, DTLS, SSLv2-looking, nonsense) - the verdict must not depend on the version field at all
+    let mut grid: Vec<(u8, u16, usize)> = Vec::new();
+    for &ct in &types { for extra in [0usize, 3] { grid.push((ct, 0x0303, extra)); } }
+    let vers: Vec<u16> = if all { vec![0x0000, 0x0001, 0x0002, 0x0100, 0x0101, 0x0200, 0x0201, 0x0300, 0x0301, 0x0302, 0x0304, 0x0400, 0x7f12, 0xfeff, 0xfefd, 0xffff] }
+                         else { vec![0x0002, 0x0201, 0x0300, 0x0301, 0x0304, 0xfeff, 0xffff] };
+    let vcts: Vec<u8> = if all { vec![0, 1, 20, 21, 22, 23, 24, 25, 0x40, 0x7f, 0x80, 0x81, 0x96, 0xc0, 0xfe, 0xff] } else { vec![22, 0x80] };
+    for &ct in &vcts { for &v in &vers { grid.push((ct, v, 3)); } }
+    for (ct, ver, extra) in grid {
         for name in ["parse_tls_plaintext", "parse_tls_encrypted", "parse_tls_raw_record"] {
-            for extra in [0usize, 3] {
-                let mut rle: Vec<(String, u32)> = Vec::new();
-                for len in 0..=65535u32 {
-                    let mut input = vec![ct, 3, 3, (len >> 8) as u8, len as u8];
-                    if extra == 3 { input.extend_from_slice(&[1, 0, 0]); }
-                    let c = code(&calls::call(name, &a, &input).unwrap(), name, ct, len, extra);
-                    calls_n += 1;
-                    match rle.last_mut() { Some((l, n)) if *l == c => *n += 1, _ => rle.push((c, 1)) }
-                }
-                writeln!(out, "{}", json!({"fn": name, "ct": ct, "extra": extra, "rle": rle.iter().map(|(c, n)| json!([c, n])).collect::<Vec<Value>>()})).unwrap();
+            let mut rle: Vec<(String, u32)> = Vec::new();
+            for len in 0..=65535u32 {
+                let mut input = vec![ct, (ver >> 8) as u8, ver as u8, (len >> 8) as u8, len as u8];
+                if extra == 3 { input.extend_from_slice(&[1, 0, 0]); }
+                let c = code(&calls::call(name, &a, &input).unwrap(), name, ct, ver, len, extra);
+                calls_n += 1;
+                match rle.last_mut() { Some((l, n)) if *l == c => *n += 1, _ => rle.push((c, 1)) }
             }
+            writeln!(out, "{}", json!({"fn": name, "ct": ct, "ver": ver, "extra": extra, "rle": rle.iter().map(|(c, n)| json!([c, n])).collect::<Vec<Value>>()})).unwrap();
         }
     }
     out.flush().unwrap();
